@@ -6,7 +6,7 @@ discipline of the downloader (`DisciplinedRun`: Schedule is called with `from` =
 headers accepted so far; the window length passed to a reservation is at most the cache length).
 `batches` is the list of batches `Results` returned along the run.
 -/
-import YouVerif.C18.ProofsProgress
+import YouVerif.C18.ProofsEpoch
 namespace YouVerif.C18
 
 /-- Results never hands out more than `maxResultsProcess` items. -/
@@ -325,6 +325,42 @@ theorem tasks_not_below_window_partial (cacheLen maxProc : Nat) (fast : Bool) (o
     ∀ k h, 0 < occ (s.pools k) h → s.offset ≤ h.num := by
   intro s k h hp
   exact ((inv_run (inv_init _ _ _ _) ops hd).occSched k h hp).2
+
+/-! ### several sync cycles on one queue object (Reset) -/
+
+/-- **Epoch reduction.**  For ANY history `pre` on a queue object (earlier cycles, aborted with results still cached,
+undisciplined calls, anything), after a new cycle is started (`reset off f` = Close + Reset + peers reset + Prepare) the
+state reached by further operations `post` is exactly the state a fresh queue reaches: so `results_in_order_once`,
+`body_matches`, `no_task_lost`, `never_invalid_chain`, `progress` … hold for the current sync epoch verbatim. -/
+theorem epoch_is_fresh_run (cacheLen maxProc : Nat) (fast0 : Bool) (offset0 : Nat) (pre : List Cmd)
+    (off : Nat) (f : Bool) (post : List Op) :
+    runC (init cacheLen maxProc fast0 offset0) (pre ++ .reset off f :: post.map .op) =
+      run (init cacheLen maxProc f off) post :=
+  runC_epoch _ pre off f post
+
+/-- `results_in_order_once` and `body_matches` per sync epoch: what `Results` hands out after the last reset is a prefix
+of the chain scheduled in THIS epoch, numbered from THIS epoch's origin, with matching bodies — nothing of an earlier,
+aborted cycle can leak into it. -/
+theorem results_in_order_once_epoch (cacheLen maxProc : Nat) (fast0 : Bool) (offset0 : Nat) (pre : List Cmd)
+    (off : Nat) (f : Bool) (post : List Op) (hd : DisciplinedRun (init cacheLen maxProc f off) post) :
+    let s := runC (init cacheLen maxProc fast0 offset0) (pre ++ .reset off f :: post.map .op)
+    let out := (batches (init cacheLen maxProc f off) post).flatten
+    s.ret = out ∧
+    out.map (·.header) = s.sched.take out.length ∧
+    (∀ i r, out[i]? = some r → r.header.num = off + i) ∧
+    (∀ r ∈ out, optRoot r.txs = r.header.txRoot ∧ (f = true → optRoot r.rcs = r.header.rcRoot)) ∧
+    s.failed = false := by
+  intro s out
+  have hs : s = run (init cacheLen maxProc f off) post := runC_epoch _ pre off f post
+  have h1 := results_in_order_once cacheLen maxProc f off post hd
+  have h2 := body_matches cacheLen maxProc f off post hd
+  have h3 := never_invalid_chain cacheLen maxProc f off post hd
+  have hret : (run (init cacheLen maxProc f off) post).ret = out := by
+    have := ret_run (init cacheLen maxProc f off) post
+    rw [show (init cacheLen maxProc f off).ret = [] from rfl, List.nil_append] at this
+    exact this
+  rw [hs]
+  exact ⟨hret, h1.1, h1.2.2, h2, h3⟩
 
 /-! ### non-vacuity: a concrete disciplined run with faults (tests, evaluated by `decide`) -/
 
